@@ -78,16 +78,17 @@ Example len_ex_derives : LEN_text strtod_ref len_ex_text len_ex_value.
 Proof.
   exists [], [1], [91; 9; 34; 97; 1; 34; 44; 48; 49; 44; 49; 46; 93], [].
   split; [reflexivity|]. split; [left; reflexivity|]. split; [reflexivity|]. split; [reflexivity|].
-  replace nesting_limit with (S 999) by reflexivity.
-  apply (v_arr len_ws len_raw (len_num_tok strtod_ref) 999
+  (* nesting_limit = S _ whatever CJSON_NESTING_LIMIT >= 1 the source under test defines *)
+  set (dl := Nat.pred nesting_limit). replace nesting_limit with (S dl) by (vm_compute; reflexivity).
+  apply (v_arr len_ws len_raw (len_num_tok strtod_ref) dl
            [9; 34; 97; 1; 34; 44; 48; 49; 44; 49; 46] [JStr [97; 1]; JNum [48; 49]; JNum [49; 46]]).
-  apply (e_cons _ _ _ 999 [9] [34; 97; 1; 34] (JStr [97; 1]) [] [48; 49; 44; 49; 46]); try reflexivity.
-  - apply (v_str _ _ _ 999 [97; 1] [97; 1]).
+  apply (e_cons _ _ _ dl [9] [34; 97; 1; 34] (JStr [97; 1]) [] [48; 49; 44; 49; 46]); try reflexivity.
+  - apply (v_str _ _ _ dl [97; 1] [97; 1]).
     apply ch_raw; [discriminate|discriminate|reflexivity|].
     apply ch_raw; [discriminate|discriminate|reflexivity|]. apply ch_nil.
-  - apply (e_cons _ _ _ 999 [] [48; 49] (JNum [48; 49]) [] [49; 46]); try reflexivity.
+  - apply (e_cons _ _ _ dl [] [48; 49] (JNum [48; 49]) [] [49; 46]); try reflexivity.
     + apply v_num. exact len_num_01.
-    + apply (e_one _ _ _ 999 [] [49; 46] (JNum [49; 46]) []); try reflexivity.
+    + apply (e_one _ _ _ dl [] [49; 46] (JNum [49; 46]) []); try reflexivity.
       apply v_num. exact len_num_1dot.
 Qed.
 
@@ -221,10 +222,10 @@ Proof. vm_compute. reflexivity. Qed.
 Example rej_ws_only : text_l strtod_ref [32; 9; 10] false = None.
 Proof. vm_compute. reflexivity. Qed.
 
-(* 1001 nested arrays: one more than CJSON_NESTING_LIMIT; 1000 are accepted *)
-Example rej_too_deep : text_l strtod_ref (repeat 91 1001 ++ repeat 93 1001) false = None.
+(* one more nested array than CJSON_NESTING_LIMIT is refused; exactly CJSON_NESTING_LIMIT are accepted (whatever the limit is) *)
+Example rej_too_deep : text_l strtod_ref (repeat 91 (S nesting_limit) ++ repeat 93 (S nesting_limit)) false = None.
 Proof. vm_compute. reflexivity. Qed.
-Example acc_at_limit : exists t, text_l strtod_ref (repeat 91 1000 ++ repeat 93 1000) false = Some (t, []).
+Example acc_at_limit : exists t, text_l strtod_ref (repeat 91 nesting_limit ++ repeat 93 nesting_limit) false = Some (t, []).
 Proof. eexists. vm_compute. reflexivity. Qed.
 
 (** * a defect deep inside a text, through the general context theorem:
